@@ -68,6 +68,9 @@ func (f *File) pollMask() uint32 {
 		if len(f.udp.queue) > 0 {
 			m |= unix.EPOLLIN
 		}
+		if f.udp.soErr != 0 {
+			m |= unix.EPOLLERR
+		}
 		return m
 	case kEventfd:
 		var m uint32
